@@ -29,6 +29,10 @@ type Cfg struct {
 	CondOpaques []Opaque
 	SharedNames bool // block bodies and callers declare locals of the same name around yield content
 	IncludeLoop bool // include with a name computed from a loop variable
+	// Values are opaque root-level expressions (supplied through ExtraVars) rendered at value sites;
+	// Writers are the SafeWriter names a value site may end with.
+	Values  []Opaque
+	Writers []string
 }
 
 type blockInfo struct {
@@ -58,7 +62,13 @@ type gen struct {
 	chanUsed  map[string]bool
 	incDepth  int
 	incFiles  []string
-	mainRoot  bool // generating the body of the root template of the executed chain
+	mainRoot  bool     // generating the body of the root template of the executed chain
+	where     []string // construct path of the statement being generated (coverage accounting)
+}
+
+func (g *gen) enter(w string) func() {
+	g.where = append(g.where, w)
+	return func() { g.where = g.where[:len(g.where)-1] }
 }
 
 func (g *gen) tok(prefix string) string {
@@ -129,6 +139,24 @@ func (g *gen) strExpr() Expr {
 // observe prints something that exposes interpreter state
 func (g *gen) observe() []Node {
 	var out []Node
+	if len(g.cfg.Values) > 0 && g.r.Intn(2) == 0 {
+		// a value site: data rendered by an action, optionally through a SafeWriter as last command
+		v := g.cfg.Values[g.r.Intn(len(g.cfg.Values))]
+		pr := &Print{E: v}
+		g.feat["value-site"] = true
+		w := g.where
+		if len(w) > 5 {
+			w = w[len(w)-5:]
+		}
+		g.feat["site@"+strings.Join(w, ">")] = true
+		if len(g.cfg.Writers) > 0 && g.r.Intn(3) == 0 {
+			pr.Writer = g.cfg.Writers[g.r.Intn(len(g.cfg.Writers))]
+			pr.Form = g.r.Intn(3)
+			g.feat["writer-"+pr.Writer] = true
+			g.feat[fmt.Sprintf("writer-form-%d", pr.Form)] = true
+		}
+		return []Node{&Text{S: "‖"}, pr, &Text{S: "‖"}}
+	}
 	all := g.visible(0, true)
 	switch k := g.r.Intn(10); {
 	case k < 4 && len(all) > 0:
@@ -212,6 +240,12 @@ func (g *gen) stmt(depth int) []Node {
 
 func (g *gen) failStmt() Node {
 	g.n++
+	if len(g.cfg.Writers) > 0 && g.r.Intn(3) == 0 {
+		// a SafeWriter command whose argument fails to evaluate (after a first argument was already written)
+		g.feat["fail-in-writer-command"] = true
+		w := g.cfg.Writers[g.r.Intn(len(g.cfg.Writers))]
+		return &RawFail{Src: fmt.Sprintf(`{{ %s: "ok%d", nosuch%d }}`, w, g.n, g.n), Positioned: true}
+	}
 	switch g.r.Intn(4) {
 	case 0:
 		return &Print{E: Opaque{Src: fmt.Sprintf("nosuch%d", g.n), Fails: true}}
@@ -382,6 +416,8 @@ func (g *gen) ifStmt(depth int) *If {
 		g.feat["if-let"] = true
 	}
 	n.Cond = g.cond()
+	leave := g.enter("if")
+	defer leave()
 	n.Then = g.list(depth + 1)
 	if g.r.Intn(2) == 0 {
 		n.HasElse = true
@@ -531,7 +567,9 @@ func (g *gen) rangeStmt(depth int) []Node {
 		post = append(post, &Text{S: "[cap " + cap + "="}, &Print{E: Var{cap}}, &Text{S: "]"})
 		g.feat["capture-loop-var"] = true
 	}
+	leaveR := g.enter("range")
 	body = append(body, g.list(depth+1)...)
+	leaveR()
 	body = append(body, &Text{S: "/r>"})
 	n.Body = body
 	g.ctx = saveCtx
@@ -594,7 +632,9 @@ func (g *gen) yieldStmt(depth int) []Node {
 		saveCtx := g.ctx
 		g.ctx = -2 // content bodies do not read '.' (it is the block's, see DESIGN 2.4)
 		g.inContent++
+		leaveC := g.enter("content")
 		y.Content = append([]Node{&Text{S: "<c:"}}, append(g.list(depth+1), &Text{S: ">"})...)
+		leaveC()
 		g.inContent--
 		g.ctx = saveCtx
 		if g.cfg.SharedNames && g.r.Intn(2) == 0 {
@@ -627,8 +667,12 @@ func (g *gen) tryStmt(depth int) *Try {
 	g.feat["try"] = true
 	t := &Try{}
 	g.inTry++
+	leaveT := g.enter("try")
 	t.Body = g.list(depth + 1)
+	leaveT()
 	g.inTry--
+	leaveK := g.enter("catch")
+	defer leaveK()
 	switch g.r.Intn(3) {
 	case 0:
 		t.HasCatch = true
@@ -774,6 +818,8 @@ func (g *gen) blockDef(b blockInfo, depth int) *BlockDef {
 	}
 	g.blocks = later
 	defer func() { g.blocks = saveBlocks }()
+	leaveB := g.enter("block")
+	defer leaveB()
 	body := []Node{&Text{S: "(" + g.tok("B") + ":"}}
 	for _, p := range b.params {
 		body = append(body, &Text{S: p.Name + "="}, &Print{E: Var{p.Name}}, &Text{S: ";"})
